@@ -9,7 +9,10 @@ REQ = ['Inst.Instance', 'Text.Import', 'Text.Render', 'Corr.C10Corr']
 def gen_files(ctx, label, n):
     rng = ctx.rng(label)
     for k in range(n):
-        ast = instgen.gen_ast(rng)
+        if k % 7 == 6:
+            ast = instgen.gen_ast(rng, maxS=12, maxP=14, maxL=4, S=rng.randint(8, 12), P=rng.randint(9, 14))   # multi-digit ids
+        else:
+            ast = instgen.gen_ast(rng)
         twopl = rng.random() < 0.6
         messy = rng.random() < 0.5
         text = instgen.render(ast, rng if messy else None, trailer=rng.random() < 0.5,
